@@ -63,15 +63,16 @@ Proof.
     + destruct ("private" =? v) eqn:E3; [intros _; reflexivity|cbn; discriminate].
 Qed.
 
-Lemma own_partition (P : entry -> bool) realizing c : forallb vis3 (c_ops c) = true ->
-  count P (own_entries "public" realizing c) + count P (own_entries "protected" realizing c)
-  + count P (own_entries "private" realizing c) = count P (own_entries "all" realizing c).
+Lemma own_partition (P : entry -> bool) realizing dcl c : forallb vis3 (c_ops c) = true ->
+  count P (own_entries "public" realizing dcl c) + count P (own_entries "protected" realizing dcl c)
+  + count P (own_entries "private" realizing dcl c) = count P (own_entries "all" realizing dcl c).
 Proof.
   unfold own_entries. induction (c_ops c) as [|o ops IH]; intros H; [reflexivity|].
   cbn [forallb] in H. apply andb_true_iff in H. destruct H as [Ho Hr]. specialize (IH Hr).
   pose proof (vis_partition o Ho) as Hp. cbn [filter]. rewrite (vis_all o).
   set (mk := fun o0 : oper => {| en_class := if realizing =? "" then c_name c else realizing; en_owner := c_name c;
                                  en_owner_pure := c_pure c; en_realised := negb (realizing =? ""); en_op := o0 |}) in *.
+  destruct (keep realizing dcl o); cbn [andb]; [|exact IH].
   cbn [map]. unfold count in *. cbn [filter].
   destruct (vis_match "public" o), (vis_match "protected" o), (vis_match "private" o); cbn [map filter] in *; try (cbn in Hp; lia);
     destruct (P (mk o)); cbn [List.length] in *; lia.
@@ -80,23 +81,24 @@ Qed.
 (* the main counting lemma: at every fuel, for every realising class *)
 Lemma ops_partition (P : entry -> bool) d : wf_vis d = true ->
   (forall c, In c (classes d) -> True) ->
-  forall fuel realizing c a b g al,
+  forall fuel realizing dcl c a b g al,
     (forall p, find_class (classes d) (c_id p) = Some p -> forallb vis3 (c_ops p) = true) ->
     forallb vis3 (c_ops c) = true ->
-    ops_of fuel d "public" realizing c = Some a -> ops_of fuel d "protected" realizing c = Some b ->
-    ops_of fuel d "private" realizing c = Some g -> ops_of fuel d "all" realizing c = Some al ->
+    ops_of fuel d "public" realizing dcl c = Some a -> ops_of fuel d "protected" realizing dcl c = Some b ->
+    ops_of fuel d "private" realizing dcl c = Some g -> ops_of fuel d "all" realizing dcl c = Some al ->
     count P a + count P b + count P g = count P al.
 Proof.
-  intros _ _. induction fuel as [|f IH]; intros realizing c a b g al Hall Hc Ha Hb Hg Hal; [discriminate|].
+  intros _ _. induction fuel as [|f IH]; intros realizing dcl c a b g al Hall Hc Ha Hb Hg Hal; [discriminate|].
   cbn [ops_of] in Ha, Hb, Hg, Hal.
   destruct (parents_of d realizing c) as [ps|] eqn:Hps; [|discriminate].
   set (r' := if realizing =? "" then c_name c else realizing) in *.
-  destruct (collect (map (ops_of f d "public" r') ps)) as [ra|] eqn:Ca; [|discriminate].
-  destruct (collect (map (ops_of f d "protected" r') ps)) as [rb|] eqn:Cb; [|discriminate].
-  destruct (collect (map (ops_of f d "private" r') ps)) as [rg|] eqn:Cg; [|discriminate].
-  destruct (collect (map (ops_of f d "all" r') ps)) as [rl|] eqn:Cl; [|discriminate].
+  set (d' := if realizing =? "" then declared_of c else dcl) in *.
+  destruct (collect (map (ops_of f d "public" r' d') ps)) as [ra|] eqn:Ca; [|discriminate].
+  destruct (collect (map (ops_of f d "protected" r' d') ps)) as [rb|] eqn:Cb; [|discriminate].
+  destruct (collect (map (ops_of f d "private" r' d') ps)) as [rg|] eqn:Cg; [|discriminate].
+  destruct (collect (map (ops_of f d "all" r' d') ps)) as [rl|] eqn:Cl; [|discriminate].
   inversion Ha; inversion Hb; inversion Hg; inversion Hal; subst a b g al. clear Ha Hb Hg Hal.
-  rewrite !count_app. pose proof (own_partition P realizing c Hc) as Hown.
+  rewrite !count_app. pose proof (own_partition P realizing d' c Hc) as Hown.
   assert (Hpar : forall p, In p ps -> forallb vis3 (c_ops p) = true).
   { unfold parents_of in Hps.
     destruct (collect (map (fun i => find_class (classes d) (i_from i))
@@ -120,7 +122,7 @@ Proof.
       apply collect_cons_inv in Cg. destruct Cg as (xg & xsg & Hg & Cg & ->).
       apply collect_cons_inv in Cl. destruct Cl as (xl & xsl & Hl & Cl & ->).
       rewrite !count_concat_cons.
-      pose proof (IH r' p xa xb xg xl Hall (Hpar p (or_introl eq_refl)) Ha Hb Hg Hl) as H1.
+      pose proof (IH r' d' p xa xb xg xl Hall (Hpar p (or_introl eq_refl)) Ha Hb Hg Hl) as H1.
       pose proof (IHp xsa xsb xsg xsl Ca Cb Cg Cl (fun q Hq => Hpar q (or_intror Hq))) as H2. lia. }
   lia.
 Qed.
@@ -138,9 +140,9 @@ Lemma decl_def_count d fuel c dl df (P : entry -> bool) :
   decls_of fuel d c = Some dl -> defs_of fuel d c = Some df -> count P dl = count P df.
 Proof.
   intros Hwf Hc Hd Hf. unfold decls_of, defs_of in *.
-  destruct (ops_of fuel d "public" "" c) as [a|] eqn:Ea; [|discriminate].
-  destruct (ops_of fuel d "protected" "" c) as [b|] eqn:Eb; [|discriminate].
-  destruct (ops_of fuel d "private" "" c) as [g|] eqn:Eg; [|discriminate].
+  destruct (ops_of fuel d "public" "" [] c) as [a|] eqn:Ea; [|discriminate].
+  destruct (ops_of fuel d "protected" "" [] c) as [b|] eqn:Eb; [|discriminate].
+  destruct (ops_of fuel d "private" "" [] c) as [g|] eqn:Eg; [|discriminate].
   inversion Hd; subst dl. rewrite !count_app, Nat.add_assoc.
   eapply ops_partition; eauto. apply find_class_vis. exact Hwf.
 Qed.
@@ -166,18 +168,19 @@ Qed.
 Lemma in_concat_of {A} (r : list A) rs x : In r rs -> In x r -> In x (List.concat rs).
 Proof. intros Hr Hx. apply in_concat. exists r. split; assumption. Qed.
 
-Lemma realised_emitted d fuel vis c i p o l :
+Lemma realised_emitted d fuel vis dcl c i p o l :
   In i (inhs d) -> contains (c_id c) (i_to i) = true -> i_real i = true ->
   find_class (classes d) (i_from i) = Some p -> c_pure p = true ->
   In o (c_ops p) -> vis_match vis o = true -> c_name c <> "" ->
-  ops_of (S (S fuel)) d vis "" c = Some l ->
+  existsb (key_eqb (sig_key o)) (declared_of c) = false ->
+  ops_of (S (S fuel)) d vis "" dcl c = Some l ->
   In {| en_class := c_name c; en_owner := c_name p; en_owner_pure := true; en_realised := true; en_op := o |} l.
 Proof.
-  intros Hi Hto Hre Hp Hpure Ho Hv Hne H.
+  intros Hi Hto Hre Hp Hpure Ho Hv Hne Hnd H.
   remember (S fuel) as f1 eqn:Hf1.
   cbn [ops_of] in H. destruct (parents_of d "" c) as [ps|] eqn:Hps; [|discriminate].
   change ("" =? "") with true in H. cbn iota in H.
-  destruct (collect (map (ops_of f1 d vis (c_name c)) ps)) as [rs|] eqn:Hc; [|discriminate].
+  destruct (collect (map (ops_of f1 d vis (c_name c) (declared_of c)) ps)) as [rs|] eqn:Hc; [|discriminate].
   inversion H; subst l. apply in_or_app. left.
   assert (Hin : In p ps).
   { unfold parents_of in Hps.
@@ -194,7 +197,8 @@ Proof.
   apply in_or_app. right. unfold own_entries.
   assert (Hn : (c_name c =? "") = false) by (apply String.eqb_neq; exact Hne).
   rewrite Hn, Hpure. cbn [negb].
-  apply in_map_iff. exists o. split; [reflexivity|]. apply filter_In. split; assumption.
+  apply in_map_iff. exists o. split; [reflexivity|]. apply filter_In. split; [assumption|].
+  unfold keep. rewrite Hn, Hnd, Hv. reflexivity.
 Qed.
 
 (* a realised operation is declared "override" and defined under the realising class's name *)
@@ -212,9 +216,9 @@ Definition cyc_class : cls :=
 Definition cyc_diagram : cdiagram :=
   {| classes := [cyc_class; cyc_iface]; inhs := [{| i_to := "C"; i_from := "I"; i_real := true |}; {| i_to := "I"; i_from := "I"; i_real := true |}] |}.
 
-Lemma cycle_iface_none fuel vis r : ops_of fuel cyc_diagram vis r cyc_iface = None.
+Lemma cycle_iface_none fuel vis r dcl : ops_of fuel cyc_diagram vis r dcl cyc_iface = None.
 Proof.
-  revert r. induction fuel as [|f IH]; intros r; [reflexivity|].
+  revert r dcl. induction fuel as [|f IH]; intros r dcl; [reflexivity|].
   cbn [ops_of].
   assert (Hp : parents_of cyc_diagram r cyc_iface = Some [cyc_iface]).
   { unfold parents_of, cyc_diagram. cbn [inhs classes filter map].
@@ -223,9 +227,97 @@ Proof.
   rewrite Hp. cbn [map collect]. rewrite IH. reflexivity.
 Qed.
 
-Lemma cycle_none fuel vis : ops_of fuel cyc_diagram vis "" cyc_class = None.
+Lemma cycle_none fuel vis : ops_of fuel cyc_diagram vis "" [] cyc_class = None.
 Proof.
   destruct fuel as [|f]; [reflexivity|]. cbn [ops_of].
   assert (Hp : parents_of cyc_diagram "" cyc_class = Some [cyc_iface]) by (vm_compute; reflexivity).
   rewrite Hp. cbn [map collect]. rewrite cycle_iface_none. reflexivity.
 Qed.
+
+(* ---------------------------------------------------------------- fuel: acyclic diagrams never run out *)
+
+Lemma collect_total {A B} (g : A -> option B) l :
+  (forall x, In x l -> exists y, g x = Some y) ->
+  exists ys, collect (map g l) = Some ys /\ (forall y, In y ys -> exists x, In x l /\ g x = Some y).
+Proof.
+  induction l as [|a l IH]; intros H.
+  - exists []. split; [reflexivity|]. intros y [].
+  - destruct (H a (or_introl eq_refl)) as (y & Hy).
+    destruct (IH (fun x Hx => H x (or_intror Hx))) as (ys & Hc & Hys).
+    exists (y :: ys). split; [cbn [map collect]; rewrite Hy, Hc; reflexivity|].
+    intros z [<-|Hz]; [exists a; split; [left; reflexivity|exact Hy]|].
+    destruct (Hys z Hz) as (x & Hx & Hg). exists x. split; [right; exact Hx|exact Hg].
+Qed.
+
+Lemma parents_within d r c : closed d = true ->
+  exists ps, parents_of d r c = Some ps /\ (forall p, In p ps -> In p (edge_parents d c)).
+Proof.
+  intros Hcl. unfold parents_of.
+  set (Q := fun i => contains (c_id c) (i_to i) && (i_real i || negb (r =? ""))).
+  destruct (collect_total (fun i => find_class (classes d) (i_from i)) (filter Q (inhs d))) as (qs & Hc & Hqs).
+  { intros i Hi. apply filter_In in Hi. destruct Hi as [Hi _]. unfold closed in Hcl. rewrite forallb_forall in Hcl.
+    specialize (Hcl i Hi). destruct (find_class (classes d) (i_from i)) as [p|]; [exists p; reflexivity|discriminate]. }
+  rewrite Hc. eexists. split; [reflexivity|].
+  intros p Hp. apply filter_In in Hp. destruct Hp as [Hp Hpure]. destruct (Hqs p Hp) as (i & Hi & Hf).
+  unfold edge_parents. apply filter_In. split; [|exact Hpure].
+  apply in_flat_map. exists i. split; [|rewrite Hf; left; reflexivity].
+  apply filter_In in Hi. destruct Hi as [Hi HQ]. apply filter_In. split; [exact Hi|].
+  unfold Q in HQ. apply andb_true_iff in HQ. tauto.
+Qed.
+
+Lemma fuel_enough d : closed d = true ->
+  forall n c, bounded n d c = true -> forall vis r dcl, exists l, ops_of n d vis r dcl c = Some l.
+Proof.
+  intros Hcl. induction n as [|m IH]; intros c Hb vis r dcl; [discriminate|].
+  cbn [bounded] in Hb. rewrite forallb_forall in Hb. cbn [ops_of].
+  destruct (parents_within d r c Hcl) as (ps & Hps & Hsub). rewrite Hps.
+  destruct (collect_total (ops_of m d vis (if r =? "" then c_name c else r) (if r =? "" then declared_of c else dcl)) ps) as (rs & Hc & _).
+  { intros p Hp. apply IH. apply Hb. apply Hsub. exact Hp. }
+  rewrite Hc. eexists. reflexivity.
+Qed.
+
+Lemma acyclic_returns d c : acyclic d = true -> closed d = true -> In c (classes d) ->
+  exists dl df, decls_of (List.length (classes d)) d c = Some dl /\ defs_of (List.length (classes d)) d c = Some df.
+Proof.
+  intros Ha Hcl Hc. unfold acyclic in Ha. rewrite forallb_forall in Ha. specialize (Ha c Hc).
+  unfold decls_of, defs_of.
+  destruct (fuel_enough d Hcl _ c Ha "public" "" []) as (a & ->).
+  destruct (fuel_enough d Hcl _ c Ha "protected" "" []) as (b & ->).
+  destruct (fuel_enough d Hcl _ c Ha "private" "" []) as (g & ->).
+  destruct (fuel_enough d Hcl _ c Ha "all" "" []) as (al & ->).
+  eexists. eexists. split; reflexivity.
+Qed.
+
+Lemma acyclic_decl_def d c (P : entry -> bool) : acyclic d = true -> closed d = true -> wf_vis d = true -> In c (classes d) ->
+  exists dl df, decls_of (List.length (classes d)) d c = Some dl /\ defs_of (List.length (classes d)) d c = Some df
+                /\ count P dl = count P df.
+Proof.
+  intros Ha Hcl Hwf Hc. destruct (acyclic_returns d c Ha Hcl Hc) as (dl & df & Hd & Hf).
+  exists dl, df. split; [exact Hd|]. split; [exact Hf|].
+  eapply decl_def_count; eauto. unfold wf_vis in Hwf. rewrite forallb_forall in Hwf. apply Hwf. exact Hc.
+Qed.
+
+(* the boolean really excludes cycles: a set of classes each of which has a parent edge into the set (e.g. the classes on a
+   cycle) contains no bounded class, for any bound *)
+Lemma cycle_unbounded d (S : list cls) :
+  (forall x, In x S -> exists y, In y S /\ In y (edge_parents d x)) ->
+  forall n x, In x S -> bounded n d x = false.
+Proof.
+  intros HS. induction n as [|m IH]; intros x Hx; [reflexivity|].
+  cbn [bounded]. destruct (HS x Hx) as (y & Hy & Hedge).
+  destruct (forallb (bounded m d) (edge_parents d x)) eqn:E; [|reflexivity].
+  rewrite forallb_forall in E. specialize (E y Hedge). rewrite (IH y Hy) in E. discriminate.
+Qed.
+
+(* a class realising an interface that generalises another one: acyclic, closed, and it returns *)
+Definition ok_base : cls :=
+  {| c_id := "J"; c_name := "IBase"; c_ns := "N"; c_enum := false; c_struct := false; c_autogen := false; c_pure := true;
+     c_ops := [{| o_name := "G"; o_vis := "protected"; o_ret := "int"; o_params := []; o_virtual := false; o_static := false; o_const := true |}] |}.
+Definition ok_diagram : cdiagram :=
+  {| classes := [cyc_class; cyc_iface; ok_base];
+     inhs := [{| i_to := "C"; i_from := "I"; i_real := true |}; {| i_to := "I"; i_from := "J"; i_real := false |}] |}.
+
+Lemma ok_diagram_facts :
+  acyclic ok_diagram = true /\ closed ok_diagram = true /\ wf_vis ok_diagram = true /\ acyclic cyc_diagram = false
+  /\ option_map (map def_head) (defs_of 3 ok_diagram cyc_class) = Some ["int CImpl::G() const"; "void CImpl::F()"].
+Proof. repeat split; vm_compute; reflexivity. Qed.
